@@ -124,6 +124,8 @@ CASES = [
     M('C05', 'successors of root tasks forgotten', (BA, "                            removed.add(task)\n                            added.update(workflow_plan.graph.successors(task))\n                        else:", "                            removed.add(task)\n                        else:")),
     W('C05', 'pool fed through a list of proposed tasks', (QA, "        task_pool -= removed\n        task_pool.update(added)\n", "        task_pool -= removed\n        for done in removed:\n            task_pool.update(workflow_plan.graph.successors(done))\n")),
     M('C05', 'in-flight size read when nothing is in flight', (B, "        size = observation_size\n        if self.observations['transfer']:\n            size = observation_size + self.observations[\n                'transfer'].total_data_size\n\n\n        return (", "        size = observation_size\n        if not self.observations['transfer']:\n            size = observation_size + self.observations[\n                'transfer'].total_data_size\n\n\n        return (")),
+    M('C05', 'refused hot->cold move loses the observation (L17)', (B, "            self.hot[b].observations['stored'].append(current_obs)\n            self.hot[b].observations['transfer'] = None\n            return False", "            self.hot[b].observations['transfer'] = None\n            return False")),
+    M('C05', 'refused cold->hot move leaves the slot set (L17)', (B, "            self.cold[b].observations['stored'].append(current_obs)\n            self.cold[b].observations['transfer'] = None\n            return False", "            self.cold[b].observations['stored'].append(current_obs)\n            return False")),
     M('C05', 'reservation read for an observation that has none', (C, "        elif observation in self._clusters[c]['resources']['idle']:\n            self._clusters[c]['resources']['idle'][observation].remove(machine)", "        elif observation not in self._clusters[c]['resources']['idle']:\n            self._clusters[c]['resources']['idle'][observation].remove(machine)")),
     # ---------------- C06
     M('C06', 'timeout(total) instead of total - 1', (T, "            yield env.timeout(total_duration - 1)", "            yield env.timeout(total_duration)")),
